@@ -352,3 +352,26 @@ pub fn run_cases(cases: &[Case], opts: &Opts) -> Vec<CaseResult> {
     }
     results
 }
+
+/// Compile all cases in one round (no iteration): returns, per case, the messages of the error
+/// diagnostics attributed to it.  Used where every case is expected to fail at expansion time
+/// (`dump`), so that later phases never run and nothing is hidden.
+pub fn diagnostics_once(cases: &[Case], opts: &Opts) -> Vec<Vec<String>> {
+    let seq = RUN_SEQ.fetch_add(1, Ordering::Relaxed);
+    let dir = work().join("gen").join(format!("{}-{}-{}", opts.label, std::process::id(), seq));
+    let _ = std::fs::remove_dir_all(&dir);
+    std::fs::create_dir_all(&dir).unwrap_or_else(|e| machinery(&format!("cannot create {dir:?}: {e}")));
+    let all: Vec<usize> = (0..cases.len()).collect();
+    let batches: Vec<Vec<usize>> = all.chunks(opts.per_file.max(1)).map(|c| c.to_vec()).collect();
+    let outs = par_map(&batches, threads(), |bi, b| compile_file(&dir, &format!("d{}", bi), cases, b, opts));
+    let mut res: Vec<Vec<String>> = vec![Vec::new(); cases.len()];
+    for (b, fo) in batches.iter().zip(outs.iter()) {
+        for (k, &i) in b.iter().enumerate() {
+            res[i] = fo.diags[k].iter().filter(|d| d.level == "error").map(|d| d.message.clone()).collect();
+        }
+    }
+    if std::env::var("DX_KEEP_GEN").is_err() {
+        let _ = std::fs::remove_dir_all(&dir);
+    }
+    res
+}
